@@ -5,6 +5,7 @@ package dagen
 
 import (
 	"fmt"
+	"os"
 
 	"github.com/Fantom-foundation/lachesis-base/inter/idx"
 	"github.com/Fantom-foundation/lachesis-base/inter/pos"
@@ -27,7 +28,13 @@ type Params struct {
 	MinEvents, MaxEvents int
 	Forks                ForkMode
 	NonMaxFrames         bool // allow a low rate of accepted but non-maximal claimed frames
-	LongEpochs           bool // with a single validator, sometimes generate epochs of ~300 events (> 256 decided frames)
+	// Shape forces one of the large shapes (see GenDAG): "many_validators" (the caller passes 65-70 validators,
+	// see GenValidatorsMany; forkers come from the tail of the weight order), "late_quorum" (less than a quorum is
+	// online for so long that one block confirms several hundred events, and one of the early validators leaves
+	// half-way), "mass_fork" (one minority validator signs 66-70 events with one sequence number and the others
+	// build only on the last of them).
+	Shape      string
+	LongEpochs bool // with a single validator, sometimes generate epochs of ~300 events (> 256 decided frames)
 }
 
 // Info describes what the generator produced (for class counters).
@@ -42,6 +49,37 @@ type Info struct {
 	Density     string
 	MaxParents  int
 	Rotating    bool
+	Shape       string // "", "many_validators", "late_quorum", "mass_fork"
+	Layered     bool   // synchronous rounds
+	Marginal    bool   // parents chosen so that their creators weigh about the quorum
+	HiddenForks int    // siblings signed right after each other (the older one is rarely built upon)
+}
+
+// DrawShape draws one of the large shapes (the preferred one in half of the cases). VERIF_SHAPE (development aid, never set by the registered commands)
+// pins it.
+func DrawShape(t *rapid.T, prefer string) string {
+	if s := os.Getenv("VERIF_SHAPE"); s != "" {
+		return s
+	}
+	return rapid.SampledFrom([]string{"many_validators", "late_quorum", "mass_fork", prefer}).Draw(t, "shape")
+}
+
+// GenValidatorsMany draws 65-70 validators (more than one machine word of per-validator flags) with small weights.
+func GenValidatorsMany(t *rapid.T) ([]idx.ValidatorID, []pos.Weight, string) {
+	{
+		n := rapid.IntRange(65, 70).Draw(t, "nManyValidators")
+		ids := make([]idx.ValidatorID, n)
+		ws := make([]pos.Weight, n)
+		base := idx.ValidatorID(rapid.Uint32Range(1, 1000).Draw(t, "idBase"))
+		for i := range ids {
+			ids[i] = base + idx.ValidatorID(i)*idx.ValidatorID(rapid.SampledFrom([]uint32{1, 3}).Draw(t, "idStride"))
+			if i > 0 && ids[i] <= ids[i-1] {
+				ids[i] = ids[i-1] + 1
+			}
+			ws[i] = pos.Weight(rapid.Uint32Range(1, 3).Draw(t, "w"))
+		}
+		return ids, ws, "many_validators"
+	}
 }
 
 // GenValidators draws 1..8 validators with one of the weight classes.
@@ -137,18 +175,89 @@ func GenDAG(t *rapid.T, epoch uint32, ids []idx.ValidatorID, weights []pos.Weigh
 	if p.LongEpochs && n == 1 && rapid.Bool().Draw(t, "longEpoch") {
 		nEvents = rapid.IntRange(270, 330).Draw(t, "longEpochEvents")
 	}
-	ref := graphref.New(epoch, ids, weights, nEvents+8)
 	var info Info
+	info.Shape = p.Shape
+	// rank of every validator in the (weight desc, id asc) order used by pos.Validators
+	rank := make([]int, n)
+	for v := range rank {
+		for u := range rank {
+			if weights[u] > weights[v] || (weights[u] == weights[v] && ids[u] < ids[v]) {
+				rank[v]++
+			}
+		}
+	}
+	var total uint64
+	for _, w := range weights {
+		total += uint64(w)
+	}
+	inLate := make([]bool, n) // late_quorum: the validators online during the first phase (less than a quorum)
+	lateRounds, lateLeaver, lateLeaveAt := 0, -1, 0
+	massForker, massAt, massCount := -1, 0, 0
+	switch p.Shape {
+	case "many_validators":
+		nEvents = n * rapid.IntRange(6, 9).Draw(t, "manyValidatorsRounds")
+	case "late_quorum":
+		var lw uint64
+		nLate := 0
+		for _, v := range rapid.Permutation(seq(n)).Draw(t, "lateSetOrder") {
+			if 3*(lw+uint64(weights[v])) <= 2*total { // stays below the quorum of 2/3*total+1
+				inLate[v] = true
+				lw += uint64(weights[v])
+				nLate++
+				if lateLeaver < 0 || rapid.Bool().Draw(t, "lateLeaverPick") {
+					lateLeaver = v
+				}
+			}
+		}
+		if nLate < 3 {
+			info.Shape = "" // one validator holds too much weight for a long quorum-less phase of several validators
+			break
+		}
+		lateLeaveAt = rapid.IntRange(5, 40).Draw(t, "lateLeaveAt")
+		lateRounds = lateLeaveAt + 700/(nLate-1) + rapid.IntRange(1, 60).Draw(t, "lateRounds")
+		nEvents = lateLeaveAt*nLate + (lateRounds-lateLeaveAt)*(nLate-1) + n*rapid.IntRange(10, 16).Draw(t, "afterRounds")
+	case "mass_fork":
+		cands := []int{}
+		for v := 0; v < n; v++ {
+			if 3*uint64(weights[v]) < total {
+				cands = append(cands, v)
+			}
+		}
+		if len(cands) == 0 || p.Forks == NoForks {
+			info.Shape = ""
+			break
+		}
+		massForker = rapid.SampledFrom(cands).Draw(t, "massForker")
+		massAt = rapid.IntRange(1, 4).Draw(t, "massForkAtRound")
+		massCount = rapid.IntRange(66, 70).Draw(t, "massForkSiblings")
+		if nEvents < 10*n {
+			nEvents = 10 * n
+		}
+		nEvents += massCount
+	}
+	ref := graphref.New(epoch, ids, weights, nEvents+80)
 
 	// forkers
 	isForker := make([]bool, n)
 	forkRate := make([]int, n)
-	if p.Forks != NoForks && rapid.IntRange(0, 3).Draw(t, "forksOn") != 0 {
+	if p.Forks != NoForks && (info.Shape == "many_validators" || rapid.IntRange(0, 3).Draw(t, "forksOn") != 0) {
 		forkerPct := rapid.SampledFrom([]int{15, 30, 30, 50}).Draw(t, "forkerPct")
 		var fw uint64
 		minority := p.Forks == MinorityFork || rapid.IntRange(0, 2).Draw(t, "keepMinority") != 0
+		if massForker >= 0 {
+			fw = ref.Weights[massForker]
+		}
 		for v := 0; v < n; v++ {
-			if rapid.IntRange(0, 99).Draw(t, "forker") >= forkerPct {
+			if v == massForker {
+				continue
+			}
+			if info.Shape == "many_validators" {
+				// forkers come from the end of the validators order (sorted index >= 64: beyond one machine word
+				// of per-validator flags)
+				if rank[v] < 64 || rapid.IntRange(0, 2).Draw(t, "tailForker") == 0 {
+					continue
+				}
+			} else if rapid.IntRange(0, 99).Draw(t, "forker") >= forkerPct {
 				continue
 			}
 			if minority && 3*(fw+ref.Weights[v]) >= ref.Total {
@@ -156,18 +265,115 @@ func GenDAG(t *rapid.T, epoch uint32, ids []idx.ValidatorID, weights []pos.Weigh
 			}
 			isForker[v] = true
 			forkRate[v] = rapid.SampledFrom([]int{2, 4, 8, 12}).Draw(t, "forkRate")
+			if info.Shape == "late_quorum" && forkRate[v] > 2 {
+				forkRate[v] = 2 // hundreds of events per validator: keep the number of branches moderate
+			}
+			if info.Shape == "many_validators" {
+				// the forker rarely returns to an abandoned branch (which would show the fork to everybody who
+				// builds on it next): its forks are mostly siblings nobody builds upon
+				forkRate[v] = rapid.SampledFrom([]int{1, 1, 2}).Draw(t, "forkRateMany")
+			}
 			fw += ref.Weights[v]
+			info.Forkers = append(info.Forkers, v)
+		}
+		if info.Shape == "many_validators" && len(info.Forkers) == 0 {
+			// at least one forker beyond sorted index 63
+			v := 0
+			want := rapid.IntRange(64, n-1).Draw(t, "tailForkerRank")
+			for u := range rank {
+				if rank[u] == want {
+					v = u
+				}
+			}
+			isForker[v] = true
+			forkRate[v] = 1
 			info.Forkers = append(info.Forkers, v)
 		}
 	}
 
+	if massForker >= 0 {
+		isForker[massForker] = true
+		forkRate[massForker] = rapid.SampledFrom([]int{0, 2, 4}).Draw(t, "massForkerRate")
+		info.Forkers = append(info.Forkers, massForker)
+	}
+	// fast forkers sign several events (children and siblings) in a row
+	fast := make([]bool, n)
+	for v := range fast {
+		if isForker[v] {
+			if info.Shape == "many_validators" {
+				fast[v] = rapid.IntRange(0, 3).Draw(t, "fastForkerMany") != 0
+			} else {
+				fast[v] = rapid.IntRange(0, 5).Draw(t, "fastForker") == 0
+			}
+		}
+	}
+	refFrom := make([]int, n) // others reference only this validator's events from this index on
+	// many_validators: a core set holding just about a quorum (all forkers included) does nearly all the work, so
+	// that quorums of observers are marginal and a single validator's weight decides
+	var core []bool
+	if info.Shape == "many_validators" {
+		core = make([]bool, n)
+		var cw uint64
+		for v := range core {
+			if isForker[v] {
+				core[v] = true
+				cw += ref.Weights[v]
+			}
+		}
+		extra := rapid.IntRange(1, 6).Draw(t, "coreExtra")
+		for _, v := range rapid.Permutation(seq(n)).Draw(t, "coreOrder") {
+			if core[v] {
+				continue
+			}
+			if 3*cw > 2*ref.Total { // quorum reached
+				if extra == 0 {
+					break
+				}
+				extra--
+			}
+			core[v] = true
+			cw += ref.Weights[v]
+		}
+	}
 	density := rapid.SampledFrom([]int{100, 100, 95, 95, 90, 80, 70, 50}).Draw(t, "parentPct")
 	info.Density = fmt.Sprintf("%d%%", density)
 	maxParents := rapid.SampledFrom([]int{n, n, n, n, n, n, n - 1, n - 1, (n + 1) / 2, (n + 1) / 2, 2, 1}).Draw(t, "maxOtherParents")
+	if info.Shape == "late_quorum" && rapid.IntRange(0, 3).Draw(t, "lateSparse") != 0 {
+		// mostly dense: many events wait on the traversal's stack when the block is finally confirmed
+		maxParents = n
+		if density < 95 {
+			density = 95
+		}
+	}
+	if info.Shape == "many_validators" {
+		// sparse graphs of 65-70 validators make no progress within the few rounds generated
+		maxParents = rapid.SampledFrom([]int{n, n, n - 1, (n + 1) / 2}).Draw(t, "maxOtherParentsMany")
+		if density < 90 {
+			density = 90
+		}
+	}
 	if maxParents < 1 {
 		maxParents = 1
 	}
 	info.MaxParents = maxParents
+	// marginal quorums: see the parent selection below
+	marginal := n >= 4 && rapid.IntRange(0, 9).Draw(t, "marginalParents") == 0
+	if info.Shape == "many_validators" {
+		marginal = rapid.IntRange(0, 3).Draw(t, "marginalParentsMany") != 0
+	}
+	if marginal {
+		maxParents = n
+	}
+	info.Marginal = marginal
+	// layered: synchronous rounds, every event of a round references only events of earlier rounds; with marginal
+	// parents every second round, whether a whole round's roots are forkless-seen hinges on one validator
+	layered := n >= 3 && rapid.IntRange(0, 9).Draw(t, "layeredRounds") == 0
+	if info.Shape == "many_validators" {
+		layered = rapid.Bool().Draw(t, "layeredRoundsMany")
+	}
+	info.Layered = layered
+	snap := make([]int, n)
+	marginalRound := false
 	activity := make([]int, n)
 	for v := range activity {
 		activity[v] = rapid.SampledFrom([]int{4, 4, 4, 4, 3, 2, 1}).Draw(t, "activity")
@@ -185,16 +391,20 @@ func GenDAG(t *rapid.T, epoch uint32, ids []idx.ValidatorID, weights []pos.Weigh
 	for v := range online {
 		online[v] = true
 	}
-	rotating := n >= 3 && rapid.IntRange(0, 2).Draw(t, "rotatingQuorums") == 0
+	// the large shapes need progress within few rounds: no rotating quorums, rare partitions and silences
+	calm := info.Shape != ""
+	rotating := n >= 3 && !calm && rapid.IntRange(0, 2).Draw(t, "rotatingQuorums") == 0
 	info.Rotating = rotating
 	step := -1
 	var queue []int // creators scheduled for the current round
 	round := 0
+	burstLeft, burstSP, burstDone := 0, -1, false
+	hiddenSibling, lastSP := false, -1
 	for len(ref.Evs) < nEvents {
 		step++
 		if len(queue) == 0 {
 			if round%period == 0 && n >= 2 {
-				part := n >= 3 && rapid.IntRange(0, 3).Draw(t, "partitionOn") == 0
+				part := n >= 3 && rapid.IntRange(0, 3).Draw(t, "partitionOn") == 0 && !(calm && rapid.IntRange(0, 3).Draw(t, "calmNoPartition") != 0)
 				for v := range group {
 					group[v] = 0
 					if part && rapid.Bool().Draw(t, "side") {
@@ -206,15 +416,31 @@ func GenDAG(t *rapid.T, epoch uint32, ids []idx.ValidatorID, weights []pos.Weigh
 				}
 				for v := range activity {
 					activity[v] = rapid.SampledFrom([]int{4, 4, 4, 3, 2, 2, 1}).Draw(t, "activity")
+					if core != nil && rapid.IntRange(0, 15).Draw(t, "coreSlow") != 0 {
+						activity[v] = 4
+					}
 				}
 				for v := range seenLate {
 					seenLate[v] = rapid.SampledFrom([]int{0, 0, 0, 0, 1, 3, 6}).Draw(t, "seenLate")
 					learnLate[v] = rapid.SampledFrom([]int{0, 0, 0, 0, 1, 3, 6}).Draw(t, "learnLate")
+					if core != nil && rapid.IntRange(0, 15).Draw(t, "coreLate") != 0 {
+						seenLate[v], learnLate[v] = 0, 0
+					}
 				}
 				// some validators go silent for the period (their roots arrive late or never)
 				anyOn := false
 				for v := range online {
 					online[v] = rapid.IntRange(0, 7).Draw(t, "online") != 0
+					if calm && !online[v] {
+						online[v] = rapid.IntRange(0, 2).Draw(t, "calmOnline") != 0
+					}
+					if core != nil {
+						if core[v] {
+							online[v] = rapid.IntRange(0, 31).Draw(t, "coreOnline") != 0
+						} else {
+							online[v] = !online[v]
+						}
+					}
 					anyOn = anyOn || online[v]
 				}
 				if !anyOn {
@@ -239,6 +465,25 @@ func GenDAG(t *rapid.T, epoch uint32, ids []idx.ValidatorID, weights []pos.Weigh
 					online[rapid.IntRange(0, n-1).Draw(t, "rotForce")] = true
 				}
 			}
+			if round <= lateRounds {
+				// late_quorum: only the early set is online, and one of its members leaves for good half-way
+				for v := range online {
+					online[v] = inLate[v] && !(v == lateLeaver && round > lateLeaveAt)
+					group[v] = 0
+				}
+			} else if lateLeaver >= 0 && round <= lateRounds+4 {
+				// everybody else joins; the leaver returns only some rounds later
+				if round == lateRounds+1 {
+					for v := range online {
+						online[v] = true
+					}
+				}
+				online[lateLeaver] = false
+			}
+			if massForker >= 0 && burstLeft == 0 && !burstDone && round >= massAt && len(ref.ByCreat[massForker]) > 0 {
+				own := ref.ByCreat[massForker]
+				burstLeft, burstSP = massCount, own[len(own)-1]
+			}
 			// one round: the online validators create events in a drawn order; slow ones skip rounds
 			perm := rapid.Permutation(seq(n)).Draw(t, "roundOrder")
 			for _, v := range perm {
@@ -258,43 +503,95 @@ func GenDAG(t *rapid.T, epoch uint32, ids []idx.ValidatorID, weights []pos.Weigh
 					}
 				}
 			}
+			for v := range snap {
+				snap[v] = len(ref.ByCreat[v])
+			}
+			marginalRound = marginal && (!layered || round%2 == 0)
+		}
+		if burstLeft > 0 {
+			// mass_fork: one more sibling on the same self-parent; siblings differ by salt and by a parent or two
+			var others []int
+			for k := rapid.IntRange(0, 2).Draw(t, "burstParents"); k > 0; k-- {
+				u := rapid.IntRange(0, n-1).Draw(t, "burstParentOf")
+				if u != massForker && len(ref.ByCreat[u]) > 0 {
+					evs := ref.ByCreat[u]
+					o := evs[len(evs)-1]
+					if len(others) == 0 || others[0] != o {
+						others = append(others, o)
+					}
+				}
+			}
+			e := ref.Prepare(graphref.Proto{Creator: massForker, SelfParent: burstSP, Others: others, Salt: uint32(step)})
+			_, hi := ref.Allowed(e)
+			ref.Commit(e, hi)
+			if seqSeen[massForker][e.Seq] {
+				info.ForkPairs++
+			}
+			seqSeen[massForker][e.Seq] = true
+			burstLeft--
+			if burstLeft == 0 {
+				burstDone = true
+				// the others build only on the last two or three siblings
+				refFrom[massForker] = len(ref.ByCreat[massForker]) - rapid.IntRange(2, 3).Draw(t, "burstVisibleSiblings")
+			}
+			continue
 		}
 		creator := queue[0]
 		queue = queue[1:]
 		own := ref.ByCreat[creator]
 		sp := -1
-		if len(own) > 0 {
+		if hiddenSibling {
+			// the forker signs a second event on the same self-parent right away: the others build on the newer
+			// one, the older sibling stays known to the nodes but (mostly) unobserved
+			hiddenSibling = false
+			sp = lastSP
+		} else if len(own) > 0 {
 			sp = own[len(own)-1]
 			if isForker[creator] {
 				k := rapid.IntRange(0, 19).Draw(t, "forkKind")
 				if k < forkRate[creator] {
-					sp = own[rapid.IntRange(0, len(own)-1).Draw(t, "forkFrom")]
-				} else if k == 19 && forkRate[creator] >= 4 {
+					sp = own[rapid.IntRange(refFrom[creator], len(own)-1).Draw(t, "forkFrom")]
+				} else if k == 19 && forkRate[creator] >= 4 && refFrom[creator] == 0 {
 					sp = -1
 				}
 			}
 		}
 		var others []int
 		rot := 0
-		if maxParents < n-1 {
+		if maxParents < n-1 || marginal {
 			rot = rapid.IntRange(0, n-1).Draw(t, "parentRotation")
+		}
+		// marginal mode: the creators of the parents (with the event's own creator) weigh the quorum give or take a
+		// little, so that whether the event forkless-sees something is decided by a single validator
+		var accW, targetW uint64
+		if marginalRound {
+			accW = ref.Weights[creator]
+			targetW = uint64(int64(ref.Quorum) + int64(rapid.SampledFrom([]int{-2, -1, -1, 0, 0, 0, 1, 2}).Draw(t, "marginalDelta")))
 		}
 		for k := 0; k < n && len(others) < maxParents; k++ {
 			u := (k + rot) % n
-			if u == creator || group[u] != group[creator] || len(ref.ByCreat[u]) == 0 {
-				continue
-			}
-			if rapid.IntRange(0, 99).Draw(t, "take") >= density {
-				continue
-			}
 			evs := ref.ByCreat[u]
+			if layered {
+				evs = evs[:snap[u]] // synchronous rounds: only what existed when the round began
+			}
+			if u == creator || group[u] != group[creator] || len(evs) == 0 || len(evs) <= refFrom[u] {
+				continue
+			}
+			if marginalRound {
+				if accW+ref.Weights[u] > targetW {
+					continue
+				}
+				accW += ref.Weights[u]
+			} else if rapid.IntRange(0, 99).Draw(t, "take") >= density {
+				continue
+			}
 			pi := len(evs) - 1
 			maxLag := seenLate[u] + learnLate[creator]
 			if maxLag > 0 {
 				lag := rapid.IntRange(0, maxLag).Draw(t, "lag")
 				pi -= lag
-				if pi < 0 {
-					pi = 0
+				if pi < refFrom[u] {
+					pi = refFrom[u]
 				}
 				if pi != len(evs)-1 {
 					info.Lagged++
@@ -303,16 +600,19 @@ func GenDAG(t *rapid.T, epoch uint32, ids []idx.ValidatorID, weights []pos.Weigh
 			others = append(others, evs[pi])
 			// two direct parents by one forking validator (events of different branches): allowed by the event
 			// checks, and the only way to see a fork without a common descendant of the branches
-			if isForker[u] && len(evs) >= 2 && len(others) < maxParents+1 && rapid.IntRange(0, 3).Draw(t, "secondParentOfForker") == 0 {
-				pj := rapid.IntRange(0, len(evs)-1).Draw(t, "secondParentIdx")
+			// (rare with 65-70 validators: one such event per round would reveal every fork to everybody at once)
+			if isForker[u] && len(evs) >= 2 && len(others) < maxParents+1 && rapid.IntRange(0, 3).Draw(t, "secondParentOfForker") == 0 &&
+				(core == nil || rapid.IntRange(0, 49).Draw(t, "secondParentOfForkerMany") == 0) {
+				pj := rapid.IntRange(refFrom[u], len(evs)-1).Draw(t, "secondParentIdx")
 				if pj != pi {
 					others = append(others, evs[pj])
 				}
 			}
 		}
 		// a forker may also reference one of its own other branches as an ordinary parent
-		if isForker[creator] && len(own) > 1 && rapid.IntRange(0, 9).Draw(t, "ownBranchParent") == 0 {
-			o := own[rapid.IntRange(0, len(own)-1).Draw(t, "ownBranch")]
+		if isForker[creator] && len(own) > 1 && rapid.IntRange(0, 9).Draw(t, "ownBranchParent") == 0 &&
+			(core == nil || rapid.IntRange(0, 9).Draw(t, "ownBranchParentMany") == 0) {
+			o := own[rapid.IntRange(refFrom[creator], len(own)-1).Draw(t, "ownBranch")]
 			if o != sp {
 				dup := false
 				for _, x := range others {
@@ -339,6 +639,21 @@ func GenDAG(t *rapid.T, epoch uint32, ids []idx.ValidatorID, weights []pos.Weigh
 			info.ForkPairs++
 		}
 		seqSeen[creator][e.Seq] = true
+		if isForker[creator] && forkRate[creator] > 0 && len(ref.Evs) < nEvents {
+			// extra turns of a forker: a sibling of the event just signed (same self-parent), or - fast forkers
+			// only - a child of it, before anybody else acts
+			pSib, pChild := forkRate[creator]/4+1, 0
+			if fast[creator] {
+				pSib, pChild = 7, 6
+			}
+			if x := rapid.IntRange(0, 19).Draw(t, "extraTurn"); x < pSib && sp >= 0 {
+				hiddenSibling, lastSP = true, sp
+				queue = append([]int{creator}, queue...)
+				info.HiddenForks++
+			} else if x >= pSib && x < pSib+pChild {
+				queue = append([]int{creator}, queue...)
+			}
+		}
 	}
 	return ref, info
 }
@@ -406,10 +721,30 @@ type Scenario struct {
 // reference election decides.
 func GenScenario(t *rapid.T, maxEpochs int, p Params) *Scenario {
 	sc := &Scenario{FirstEpoch: uint32(rapid.SampledFrom([]uint32{1, 1, 1, 2, 7, 1000}).Draw(t, "firstEpoch"))}
-	ids, ws, class := GenValidators(t)
+	var ids []idx.ValidatorID
+	var ws []pos.Weight
+	var class string
+	switch p.Shape {
+	case "many_validators":
+		ids, ws, class = GenValidatorsMany(t)
+	case "late_quorum", "mass_fork":
+		ids, ws, class = GenValidatorsN(t, rapid.IntRange(5, 9).Draw(t, "nValidatorsShape"))
+	default:
+		ids, ws, class = GenValidators(t)
+	}
 	nEpochs := rapid.IntRange(1, maxEpochs).Draw(t, "nEpochs")
+	if p.Shape == "many_validators" {
+		nEpochs = 1
+	}
 	for k := 0; k < nEpochs; k++ {
-		ref, info := GenDAG(t, sc.FirstEpoch+uint32(k), ids, ws, p)
+		pk := p
+		if k > 0 && p.Shape != "many_validators" {
+			pk.Shape = "" // the large shape is the first epoch only
+		}
+		if pk.Shape == "many_validators" && len(ids) < 65 {
+			pk.Shape = ""
+		}
+		ref, info := GenDAG(t, sc.FirstEpoch+uint32(k), ids, ws, pk)
 		info.WeightClass = class
 		plan := &EpochPlan{Ref: ref, Info: info, Elect: ref.Elect(0)}
 		sc.Epochs = append(sc.Epochs, plan)
